@@ -88,6 +88,16 @@ type Sequence struct {
 	Schema, Name string
 	Last         int64
 	Called       bool
+	Increment    int64 // >= 1
+	Cache        int64 // >= 1: values a session pre-allocates at a time (CREATE SEQUENCE ... CACHE)
+	epoch        int64 // reserved (cache invalidation on DROP/re-CREATE)
+}
+
+// seqCacheEntry is one session's pre-allocated range of a cached sequence.
+type seqCacheEntry struct {
+	next, end, last int64
+	returned        bool
+	epoch           int64
 }
 
 type Function struct {
